@@ -175,10 +175,21 @@ package dns
 //@ extern crypto/hmac.Equal
 //@   pure
 
-//@ extern strings.HasPrefix
+//@ func internal/stringslite.HasPrefix
 //@   ensures ret0 == (len(s) >= len(prefix) && (forall k in 0..len(prefix) :: s[k] == prefix[k]))
 //@   pure
-//@ extern strings.HasSuffix
+//@ func internal/stringslite.HasSuffix
+//@   ensures ret0 == (len(s) >= len(suffix) && (forall k in 0..len(suffix) :: s[len(s) - len(suffix) + k] == suffix[k]))
+//@   pure
+//@ func internal/stringslite.TrimSuffix
+//@   ensures issub(ret0, s) && start(ret0, s) == 0
+//@   ensures cut: len(s) >= len(suffix) && (forall k in 0..len(suffix) :: s[len(s) - len(suffix) + k] == suffix[k]) ==> len(ret0) == len(s) - len(suffix)
+//@   ensures keep: !(len(s) >= len(suffix) && (forall k in 0..len(suffix) :: s[len(s) - len(suffix) + k] == suffix[k])) ==> len(ret0) == len(s)
+//@   pure
+//@ func strings.HasPrefix
+//@   ensures ret0 == (len(s) >= len(prefix) && (forall k in 0..len(prefix) :: s[k] == prefix[k]))
+//@   pure
+//@ func strings.HasSuffix
 //@   ensures ret0 == (len(s) >= len(suffix) && (forall k in 0..len(suffix) :: s[len(s) - len(suffix) + k] == suffix[k]))
 //@   pure
 
@@ -313,8 +324,8 @@ package dns
 //@   ensures doubled: len(old) == 1 && old[0] == '\\' && len(new) == 2 && new[0] == '\\' && new[1] == '\\' ==> unitsfrom(ret0, 0) == len(s)
 //@   pure
 
-// strings.TrimSuffix: s without the trailing suffix string when s ends in it, else s (documented behaviour; trusted)
-//@ extern strings.TrimSuffix
+// strings.TrimSuffix: s without the trailing suffix string when s ends in it, else s (verified from source)
+//@ func strings.TrimSuffix
 //@   ensures issub(ret0, s) && start(ret0, s) == 0
 //@   ensures cut: len(s) >= len(suffix) && (forall k in 0..len(suffix) :: s[len(s) - len(suffix) + k] == suffix[k]) ==> len(ret0) == len(s) - len(suffix)
 //@   ensures keep: !(len(s) >= len(suffix) && (forall k in 0..len(suffix) :: s[len(s) - len(suffix) + k] == suffix[k])) ==> len(ret0) == len(s)
